@@ -79,15 +79,18 @@ def walk_modules(mod):  # noqa: ANN001
             yield from walk_modules(m)
 
 
-def judge(rec, case, files, top, ref, pkg) -> tuple | None:  # noqa: ANN001, C901, PLR0912
-    """Returns (what, observed, expected, finding, tried) or None."""
+def judge(rec, case, files, top, ref, pkg) -> list[tuple]:  # noqa: ANN001, C901, PLR0912
+    """Returns every problem found as (what, observed, expected, finding, tried); judging goes on after a problem so that
+    a refutation of a listed mechanism cannot hide an unlisted one in the same package."""
+    problems: list[tuple] = []
     from _griffe.exceptions import AliasResolutionError, CyclicAliasError
 
     implicit = implicit_submodule_names(files, ref)
     for gmod in walk_modules(pkg):
         rmod = ref["modules"].get(gmod.path)
         if rmod is None:
-            return (f"module {gmod.path} loaded by griffe but not importable by CPython", gmod.path, None, None, [])
+            problems.append((f"module {gmod.path} loaded by griffe but not importable by CPython", gmod.path, None, None, []))
+            continue
         rec.count("modules_compared")
         rel = gmod.path.replace(".", "/")
         src = files.get(rel + "/__init__.py") if gmod.is_package or gmod.is_subpackage else files.get(rel + ".py")
@@ -98,7 +101,8 @@ def judge(rec, case, files, top, ref, pkg) -> tuple | None:  # noqa: ANN001, C90
         gnames = {}
         for n, m in gmod.members.items():
             if n.endswith("/*"):
-                return (f"unexpanded wildcard placeholder {gmod.path}.{n} left in an acyclic, fully loaded package", n, None, None, [])
+                problems.append((f"unexpanded wildcard placeholder {gmod.path}.{n} left in an acyclic, fully loaded package", n, None, None, []))
+                continue
             if n in drop:
                 continue
             if not m.is_alias and m.is_module and n not in rmod["names"]:
@@ -108,14 +112,16 @@ def judge(rec, case, files, top, ref, pkg) -> tuple | None:  # noqa: ANN001, C90
             missing = sorted(set(rnames) - set(gnames))
             extra = sorted(set(gnames) - set(rnames))
             fid, tried = classify_names(gmod.path, missing, extra, files, ref)
-            return (f"names visible in {gmod.path} differ", {"missing_in_griffe": missing, "extra_in_griffe": extra},
-                    sorted(rnames), fid, tried)
+            problems.append((f"names visible in {gmod.path} differ", {"missing_in_griffe": missing, "extra_in_griffe": extra},
+                             sorted(rnames), fid, tried))
+            rnames = {n: v for n, v in rnames.items() if n in gnames}   # go on with the names both sides have
         rec.count("names_compared", len(rnames))
         # exports
         if rmod["all"] is not None:
             gall = None if gmod.exports is None else [e if isinstance(e, str) else e.name for e in gmod.exports]
             if gall is None or list(gall) != list(rmod["all"]):
-                return (f"__all__ of {gmod.path} differs", gall, rmod["all"], None, [])
+                problems.append((f"__all__ of {gmod.path} differs", gall, rmod["all"], None, []))
+                continue
         for n, want in rnames.items():
             m = gnames[n]
             if n == "__all__":
@@ -125,7 +131,8 @@ def judge(rec, case, files, top, ref, pkg) -> tuple | None:  # noqa: ANN001, C90
                 final = m.final_target if m.is_alias else m
             except (AliasResolutionError, CyclicAliasError) as exc:
                 fid, tried = classify_target(gmod.path, n, {}, want, files)
-                return (f"{gmod.path}.{n}: alias cannot be resolved in a fully loaded acyclic package", repr(exc)[:200], want, fid, tried)
+                problems.append((f"{gmod.path}.{n}: alias cannot be resolved in a fully loaded acyclic package", repr(exc)[:200], want, fid, tried))
+                continue
             if want["k"] == "value":
                 got = {"k": "value", "id": final.path if final.is_attribute else f"<{final.kind.value}> {final.path}"}
             elif want["k"] in ("class", "function", "module"):
@@ -139,21 +146,24 @@ def judge(rec, case, files, top, ref, pkg) -> tuple | None:  # noqa: ANN001, C90
                     fresh = relookup_by_path(pkg.modules_collection, m)
                     if fresh is not None and fresh.path == want["id"]:
                         fid = "C05-early-resolution-stale-target"
-                return (f"{gmod.path}.{n} refers to a different definition", got, want, fid, tried)
+                problems.append((f"{gmod.path}.{n} refers to a different definition", got, want, fid, tried))
+                continue
             if m.is_alias:
                 rec.count("alias_presentations_checked")
                 bad = check_presentation(m, final)
                 if bad:
-                    return (f"alias {m.path} does not present its target: {bad[0]}", bad[1], bad[2], None, [])
+                    problems.append((f"alias {m.path} does not present its target: {bad[0]}", bad[1], bad[2], None, []))
+                    continue
     for rname in ref["modules"]:
         try:
             obj = pkg.modules_collection.get_member(rname)
         except KeyError:
-            return (f"module {rname} imported by CPython but not loaded by griffe", None, rname, None, [])
+            problems.append((f"module {rname} imported by CPython but not loaded by griffe", None, rname, None, []))
+            continue
         if obj.is_alias or not obj.is_module:
             # a member shadows the sub-module in Griffe's single namespace (documented limitation), only if names clash
             continue
-    return None
+    return problems
 
 
 def implicit_submodule_names(files: dict, ref: dict) -> dict[str, set[str]]:
@@ -312,7 +322,9 @@ def run_case(rec, files: dict, top: str, nontrivial: bool, tags=()) -> None:  # 
         rec.fail_exc(case, f"{type(exc).__name__} while loading / resolving an acyclic package", exc, nontrivial=nontrivial, tags=tags)
         return
     if res:
-        rec.fail(case, res[0], observed=res[1], expected=res[2], finding=res[3], tried=res[4], nontrivial=nontrivial, tags=tags)
+        # an unlisted refutation wins over listed ones found in the same package
+        first = next((p for p in res if p[3] is None), res[0])
+        rec.fail(case, first[0], observed=first[1], expected=first[2], finding=first[3], tried=first[4], nontrivial=nontrivial, tags=tags)
     else:
         rec.ok(case, nontrivial=nontrivial, tags=tags)
 
